@@ -52,7 +52,7 @@ def startTest (g : Graph) (s : State) (n w : Nat) (phase : Phase) (dir : Dir) : 
 
 /-- produce-on-PASS (DESIGN.md A.5): the set states of a passed test appear in the worker's own pool -/
 def produce (g : Graph) (s : State) (n w : Nat) : State :=
-  let wid := (g.worker w).id
+  let wid := (g.worker (g.netOf n w)).id
   let own := storeGet s.store wid
   let add := (g.node n).sets.filter (fun x => !own.contains x)
   { s with store := storeSet s.store wid (own ++ add) }
